@@ -72,6 +72,28 @@ def _node_tokens(nn, na, B):
                 yield ('n', name, a), 1
 
 
+def _branch_unit_ok(toks):
+    """toks ends with ')': the closed branch is the first and only branch of its anchor and the unit
+    (anchor + branch) carries no ring marker -- the shapes the C05 alphabet admits for a branch multiplier"""
+    depth = 0
+    for i in range(len(toks) - 1, -1, -1):
+        k = toks[i][0]
+        if k == ')':
+            depth += 1
+        elif k == '(':
+            depth -= 1
+            if depth == 0:
+                j = i - 1
+                if j >= 0 and toks[j][0] == 'b':
+                    j -= 1
+                if j >= 0 and toks[j][0] == 'm':
+                    j -= 1
+                return j >= 0 and toks[j][0] == 'n'
+        elif k == 'r':
+            return False
+    return False
+
+
 def succ(state, B):
     toks, nn, depth, last, opens, nr, nb, na, nm, prev, stack, edges = state
     out = []
@@ -94,8 +116,8 @@ def succ(state, B):
     # multiplier
     if B.mults and nm < B.max_mults:
         ok = (last == 'N' and 'node' in B.mult_on and toks[-1][0] == 'n') or \
-             (last == 'C' and 'branch' in B.mult_on) or \
-             (last == 'BC' and 'branch' in B.mult_on and toks[-2] == (')',))
+             (last == 'C' and 'branch' in B.mult_on and _branch_unit_ok(toks)) or \
+             (last == 'BC' and 'branch' in B.mult_on and toks[-2] == (')',) and _branch_unit_ok(toks[:-1]))
         if ok:
             cls = 'MN' if last == 'N' else 'M'
             for k in B.mults:
